@@ -15,7 +15,8 @@ U = {
     'macs': ['hmac-sha2-256', 'umac-128-etm@openssh.com', 'hmac-sha2-512-etm@openssh.com'],
 }
 PEERFIELD = {'host_keys': 'key', 'kex': 'kex', 'ciphers': 'ciphers', 'macs': 'macs'}
-SIZES = [0, 1023, 1024, 2047, 2048, 2049, 3071, 3072, 4096]
+# ... and sizes far above anything customary: 'at least the policy's' has no upper end
+SIZES = [0, 1023, 1024, 2047, 2048, 2049, 3071, 3072, 4096, 8192, 16384, 16385, 32768, 1 << 20]
 BASE_PEER = {'banner': 'SSH-2.0-OpenSSH_9.6', 'compressions': ['none'], 'key': ['ssh-ed25519'], 'kex': ['curve25519-sha256'],
              'ciphers': ['aes256-ctr'], 'macs': ['hmac-sha2-256'], 'host_keys': {}, 'dh': {}}
 
@@ -164,7 +165,7 @@ def fam_sizes():
         for ect in ('', 'ssh-rsa', 'ssh-ed25519'):
             for ecs in (0, 2048, 4096):
                 for act in ('', 'ssh-rsa', 'ssh-ed25519'):
-                    for acs in (0, 1024, 2048, 2049, 4096, 8192):
+                    for acs in (0, 1024, 2048, 2049, 4096, 8192, 32768):
                         for eh, ah in ((3072, 3072), (3072, 2048), (2048, 3072)):
                             pol = {'larger': larger, 'hostkey_sizes': {ct: {'hostkey_size': eh, 'ca_key_type': ect, 'ca_key_size': ecs}}}
                             peer = dict(BASE_PEER)
@@ -261,7 +262,7 @@ def metamorphic(pol, peer, st, family):
                     st.violation('%s:shrinking-a-passing-peer-fails' % family, {'policy': pol, 'peer': peer, 'shrunk': p2, 'errors': errs})
     if pol.get('larger'):
         for t in peer['host_keys']:
-            for grow in (1, 1024):
+            for grow in (1, 1024, 16384, 1 << 16):
                 p2 = json.loads(json.dumps(peer))
                 p2['host_keys'][t]['hostkey_size'] += grow
                 if p2['host_keys'][t]['ca_key_size']:
@@ -273,8 +274,9 @@ def metamorphic(pol, peer, st, family):
                 if not ok:
                     st.violation('%s:growing-keys-of-a-passing-peer-fails' % family, {'policy': pol, 'peer': peer, 'grown': p2, 'errors': errs})
         for t in peer['dh']:
+          for grow in (1024, 16384, 1 << 16):
             p2 = json.loads(json.dumps(peer))
-            p2['dh'][t] += 1024
+            p2['dh'][t] += grow
             policy = Policy(policy_data=R.policy_text(pol))
             b, k = tool_peer(p2)
             ok, errs, _ = policy.evaluate(b, k)
